@@ -32,9 +32,11 @@ demo() {
     echo "rc=nodemo" ; : > $work/demo.out
   fi
 }
-with_s=$(suite); with_d=$(demo); cp $work/demo.out $work/demo_with.out
+# cargo does not re-run feel-number/build.rs for an edited C file (the cc crate prints rerun-if-env-changed lines): force it
+cfix() { if git diff --name-only -- . ':!seed' ':!BRIEF.md' | grep -q decnumber/ || grep -q decnumber/ seed/patch.diff; then touch feel-number/build.rs; fi; }
+cfix; with_s=$(suite); with_d=$(demo); cp $work/demo.out $work/demo_with.out
 git apply -R seed/patch.diff || { echo "[confirm $id] patch does not reverse-apply"; exit 1; }
-wo_s=$(suite); wo_d=$(demo); cp $work/demo.out $work/demo_without.out
-git apply seed/patch.diff
+cfix; wo_s=$(suite); wo_d=$(demo); cp $work/demo.out $work/demo_without.out
+git apply seed/patch.diff; cfix
 [ "$with_s" = "$wo_s" ] && echo "[confirm $id] suite identical with/without: $wo_s" | cut -c1-400 || { echo "[confirm $id] SUITE DIFFERS"; echo "  with:    $with_s"; echo "  without: $wo_s"; }
 echo "[confirm $id] demo with change: $with_d ; without: $wo_d  ($(tail -2 $work/demo_with.out | tr '\n' ' ' | cut -c1-160) | $(tail -2 $work/demo_without.out | tr '\n' ' ' | cut -c1-160))"
